@@ -21,7 +21,7 @@ def run(ctx: core.Ctx) -> None:
     for name, m in (('core', maxi), ('guard', 1), ('vec', 2 if quick else 3), ('hook', 2), ('empty', 2)):
         r = sc.check_and_emit(ctx, name, m, inv)
         sc.replay(ctx, r, all_variants=(name in ('hook', 'empty') or not quick), what=name,
-                  variants=sc.VARIANTS + [sc.TINY, sc.SIGNED, sc.HISTORY, sc.HISTORY2] + ([sc.HUGE] if name == 'vec' else []))
+                  variants=sc.VARIANTS + [sc.TINY, sc.SIGNED, sc.HISTORY, sc.HISTORY2, sc.WNAN] + ([sc.HUGE] if name == 'vec' else []))
         recs.append(len(r))
     sim = sc.simulate_and_emit(ctx, 'long', 6 if quick else 12, inv, num=2000 if quick else 60000)
     sc.replay(ctx, sim, all_variants=False, what='long-sim')
